@@ -247,3 +247,89 @@ def rebalance_small(c):
 rebalance_small.harness.conc = True
 canary('Saturday accepted', WeeklyRebalance, '_set_weekday', '"FRI")', '"FRI", "SAT")')(rebalance_small)
 canary('pre and post stamps swapped', DailyRebalance, '_set_market_time', '"14:30:00" if pre_market else "21:00:00"', '"21:00:00" if pre_market else "14:30:00"')(rebalance_small)
+
+
+# ---------------------------------------------------------------------------------- Signal.update_assets
+from qstrader.signals.signal import Signal
+from pyvc.core import Abort, Unmodelled
+from .common import UniverseStub, HAS
+
+UA_LOOP = 'Signal.update_assets#for extra_assets#0'
+
+
+class _TrackedAssets:
+    """signal.assets: a list that update_assets only tests for membership (through set()) and appends to.
+       view: the SET of tracked assets (a z3 set); ghost log of the appends of this call"""
+
+    def __init__(self, dom):
+        self.dom, self.appended = dom, []
+
+    def __vc_set__(self):
+        return heap.SymSet(self.dom)
+
+    def append(self, x):
+        ctx().ob('no-asset-is-tracked-twice', z3.Not(z3.Select(self.dom, liftk(x))), props=['C16'])
+        self.appended.append(liftk(x))
+        self.dom = z3.Store(self.dom, liftk(x), True)
+
+    def __iter__(self):
+        raise Unmodelled('iteration over the tracked assets')
+
+
+class _ExtraLoop(heap.MapLoopSpec):
+    """for extra_asset in extra_assets: self.assets.append(extra_asset)  - tracked set = old set + processed extras"""
+
+    def __init__(self, tracked, dom0):
+        self.tr, self.dom0 = tracked, dom0
+
+    def scal(self, L, env, done):
+        k = z3.Const('__k', K)
+        return [('tracked-set-is-old-set-plus-processed-extras', self.tr.dom == z3.Lambda([k], z3.Or(z3.Select(self.dom0, k), z3.Select(done, k))))]
+
+
+class _ExtraMapLoop(heap.MapLoop):
+    def havoc(self, env, names):
+        out = super().havoc(env, names)
+        self.spec.tr.dom = ctx().fresh('tracked', heap.AKB)        # heap frame of the loop: the tracked list
+        return out
+
+
+@harness('Signal.update_assets', props=['C16', 'C07'], layer='L3', functions=['Signal.update_assets', 'Signal.__init__', 'Signal._create_asset_price_buffers'])
+def signal_update_assets(c):
+    """after update_assets(dt) the tracked assets are exactly the old ones plus the universe members at dt (a set union:
+       nothing is dropped, nothing outside the universe is added, no asset is tracked twice); the universe is asked at dt"""
+    if c.mode != 'sym':
+        return _signal_update_assets_conc(c)
+    w = c.key('w')
+    uni = UniverseStub(c)
+    dt = c.time('dt')
+    dom0 = c._const('tracked0', heap.AKB)
+    tr = _TrackedAssets(dom0)
+    s = object.__new__(MomentumSignal)
+    s.universe, s.assets = uni, tr
+    spec = _ExtraLoop(tr, dom0)
+    heap.LOOPSPEC[UA_LOOP] = lambda lid, it, env: _ExtraMapLoop(lid, it, env, spec)
+    try:
+        s.update_assets(dt)
+    finally:
+        heap.LOOPSPEC.pop(UA_LOOP, None)
+    W = liftk(w)
+    c.ob('tracked-assets-are-old-plus-universe-at-dt', z3.Select(tr.dom, W) == z3.Or(z3.Select(dom0, W), z3.Select(uni.dom_at(dt), W)))
+    c.ob('universe-asked-at-dt-only', AND(len(uni.queries) >= 1, *[EQ(q, dt) for q in uni.queries]), props=['C07', 'C16'])
+
+
+def _signal_update_assets_conc(c):
+    w1, w2, w3 = c.key('w'), c.key('w2'), c.key('w3')
+    uni = UniverseStub(c)
+    dt = c.time('dt')
+    old = [k for k in dict.fromkeys([w1, w2, w3]) if c.ceval(z3.Select(z3.Const('tracked0', heap.AKB), c.keyterm(k)), lambda r: r.random() < 0.4, bool)]
+    s = object.__new__(MomentumSignal)
+    s.universe, s.assets = uni, list(old)
+    s.update_assets(dt)
+    want = set(old) | set(uni._conc(dt))
+    c.ob('tracked-assets-are-old-plus-universe-at-dt', set(s.assets) == want and len(s.assets) == len(set(s.assets)) and s.assets[:len(old)] == old)
+    c.ob('universe-asked-at-dt-only', all(q == dt for q in uni.queries), props=['C07', 'C16'])
+
+
+canary('tracked assets replaced by the universe', Signal, 'update_assets', 'list(set(universe_assets) - set(self.assets))', 'list(set(universe_assets))')(signal_update_assets)
+canary('universe asked at the start date', Signal, 'update_assets', 'self.universe.get_assets(dt)', 'self.universe.get_assets(self.start_dt)')(signal_update_assets)
